@@ -415,7 +415,7 @@ func runC12(e *Env) {
 					trees[i].bound++
 				}
 			}
-			trees = append(trees, tree{"C[1] D[1] E[1]", 6}, tree{chord(120, 60, false), 1})
+			trees = append(trees, tree{"C[1] D[1] E[1]", 5}, tree{"C[1] 2[1] E[1]", 5}, tree{chord(120, 60, false), 1}, tree{chord(120, 119, true), 1})
 		}
 		type sres2 struct {
 			Executions int            `json:"executions"`
@@ -435,7 +435,7 @@ func runC12(e *Env) {
 		errs := make([]string, len(trees))
 		mc.ParFor(len(trees), func(i int) {
 			t := trees[i]
-			cmd := exec.Command(sbin, fmt.Sprint(t.bound), "3000000", t.text)
+			cmd := exec.Command(sbin, fmt.Sprint(t.bound), "20000000", t.text)
 			cmd.Env = append(os.Environ(), "GOMAXPROCS=2")
 			out, err := cmd.Output()
 			if err != nil {
